@@ -521,7 +521,9 @@ def subject_roundtrip(case):
     out = []
     for text in case['texts']:
         r = {}
-        for opts in ({}, {'datetime_types': True, 'binary_types': True}, {'decimal_type': str}):
+        for opts in ({}, {'datetime_types': True, 'binary_types': True}, {'decimal_type': str},
+                     {'decimal_type': str, 'datetime_types': True, 'binary_types': True}, {}):
+            # the last, plain call repeats the first one: its value must not depend on the option calls in between
             try:
                 val, errs = ty.decode(text, validation='lax', namespaces={'xs': 'http://www.w3.org/2001/XMLSchema', 'p': 'urn:p'},
                                       **opts)
@@ -529,6 +531,10 @@ def subject_roundtrip(case):
                 r['exc'] = '%s with %s: %s' % (common.exc_class(e), opts, str(e)[:100])
                 break
             valid = not errs
+            if not opts:
+                plain = '%s %r' % (type(val).__name__, val)
+                if r.setdefault('plain', plain) != plain:
+                    r['roundtrip'] = 'plain decode(%r) gave %s before and %s after decodes with datetime_types / binary_types / decimal_type' % (text, r['plain'], plain)
             r.setdefault('valid', valid)
             if valid != r['valid']:
                 r['option_dependent'] = str(opts)
